@@ -238,6 +238,57 @@ func (p c17) Run(c *fw.Case) {
 		failedCalls(c) // call history: failed calls before the case must leave nothing behind
 	}
 	r := c.R
+	if c.Idx%40 == 13 {
+		// the addressed subschema is the EMPTY schema below a holder that consists of nothing but `not` ({"not": {}} /
+		// {"not": true} - after decoding, the same Go value as the boolean schema false): the location exists, the reference
+		// resolves to the empty schema, every instance is valid
+		holder := map[string]any{"not": gen.Pick(r, []any{map[string]any{}, true})}
+		type shape struct {
+			doc map[string]any
+			ptr string
+		}
+		sh := gen.Pick(r, []shape{
+			{map[string]any{"$defs": map[string]any{"never": holder}}, "/$defs/never/not"},
+			{map[string]any{"properties": map[string]any{"p": holder}}, "/properties/p/not"},
+			{map[string]any{"$defs": map[string]any{"d": map[string]any{"allOf": []any{holder, true}}}}, "/$defs/d/allOf/0/not"},
+			{map[string]any{"$defs": map[string]any{"d": map[string]any{"items": holder, "title": "t"}}}, "/$defs/d/items/not"},
+		})
+		doc := gen.Clone(sh.doc).(map[string]any)
+		wrapped := r.IntN(2) == 0
+		if wrapped {
+			doc["additionalProperties"] = map[string]any{"$ref": "#" + sh.ptr}
+		} else {
+			delete(doc, "properties") // (the reference replaces whatever else would constrain the instance itself)
+			if _, has := doc["$defs"]; !has {
+				doc["$defs"] = map[string]any{"p": holder}
+				sh.ptr = "/$defs/p/not"
+			}
+			doc["$ref"] = "#" + sh.ptr
+		}
+		text := gen.Text(doc)
+		rs, err, ok := compileDoc(c, text, nil)
+		if !ok {
+			return
+		}
+		c.Eval(1)
+		if err != nil {
+			c.Violation("a $ref to the JSON Pointer of an existing subschema does not resolve: "+err.Error(), map[string]any{"schema": json.RawMessage(text), "pointer": sh.ptr})
+			return
+		}
+		for _, inst := range []any{"HIT", 1.0, nil, map[string]any{"zz": "v"}, []any{1.0}} {
+			valid, ok := validate(c, rs, text, inst, gen.Describe(inst))
+			if !ok {
+				return
+			}
+			c.Eval(1)
+			if m, isObj := inst.(map[string]any); !valid && !(wrapped && !isObj && m == nil && false) {
+				c.Violation("the pointer to an empty subschema selected something that rejects an instance", map[string]any{"schema": json.RawMessage(text), "pointer": sh.ptr, "instance": gen.Describe(inst)})
+				return
+			}
+		}
+		c.Nontrivial("empty-target-below-not|" + sh.ptr)
+		return
+	}
 	depth := 1 + r.IntN(5)
 	d := buildPtrDoc(c, depth)
 	if c.Idx%4 == 3 {
